@@ -24,8 +24,9 @@ const OLS_C: f64 = 1e3;
 const RIDGE_C: f64 = 1e4;
 const MEAN_C: f64 = 100.0;
 /// standardised designs with max_j |mean_j|/std_j above this get the signature suffix "/mean>10std": the
-/// accuracy of a one-pass variance E[x²]−mean² degrades like ε·(mean/std)²; below the bound even its
-/// worst-case error (3n·ε·(1+mean²/std²)) stays inside the DESIGN threshold
+/// relative error of a one-pass variance E[x²]−mean² grows like c·ε·(mean/std)² (c ≈ √n typically) and
+/// enters the gradient as 2α·δ_std·‖w_z‖; below the bound that is ≤ c/(100p) of the DESIGN threshold, so
+/// the unsuffixed class does not depend on how the library computes the variance
 const BIG_MEAN: f64 = 10.0;
 /// intercept algebra b = ȳ − Σ w_j·mean_j: INTERCEPT_C·(n+p)·ε·(mean|y| + Σ|w_j|·mean_i|x_ij|)
 const INTERCEPT_C: f64 = 100.0;
@@ -52,7 +53,8 @@ enum Model {
     Ols,
     RidgeNorm,
     RidgeRaw,
-    /// normalised ridge on columns with a large offset: mean magnitude / column scale log-uniform in 30..1e4 (f32: 30..300)
+    /// normalised ridge on columns with a large offset: mean magnitude / column scale log-uniform in
+    /// 30..1e4 (f32: 30..300), generated part cond <= 3, κ₂ of the raw X measured <= 1e6
     RidgeOffset,
 }
 
@@ -178,11 +180,17 @@ fn draw_data<T: RealNumber>(c: &mut Case, model: Model) -> Option<Data> {
         c.skip("condition number of the centred, standardised design above 1e6");
         return None;
     }
+    Some(d)
+}
+
+/// behavioural / input-class buckets, recorded only for cases that pass all measured preconditions
+fn data_buckets<T: RealNumber>(c: &mut Case, d: &Data) {
+    let (n, p) = (d.n, d.p);
     c.bucket(&format!("width:{}", width::<T>()));
     c.bucket(&format!("p:{}", p));
     c.bucket(if n == p + 1 { "n:p+1" } else if n <= p + 12 { "n:<=p+12" } else { "n:large" });
-    c.bucket(&format!("y:{}", ykind));
-    c.bucket(&format!("scales:{}", scale_mode));
+    c.bucket(&format!("y:{}", d.ykind));
+    c.bucket(&format!("scales:{}", d.scale_mode));
     c.bucket(if d.kz > 1e4 { "cond(Z):1e4..1e6" } else if d.kz > 1e2 { "cond(Z):1e2..1e4" } else { "cond(Z):<=1e2" });
     c.bucket(if d.mean_over_std > 1e4 {
         "mean/std:>1e4"
@@ -195,7 +203,6 @@ fn draw_data<T: RealNumber>(c: &mut Case, model: Model) -> Option<Data> {
     } else {
         "mean/std:<=10"
     });
-    Some(d)
 }
 
 fn describe<T: RealNumber>(c: &mut Case, d: &Data, model: &str, alpha: Option<f64>, extra: Value) {
@@ -325,6 +332,7 @@ fn ols_t<T: RealNumber>(c: &mut Case) {
         return;
     }
     describe::<T>(c, &d, "ols", None, json!({"cond_[X 1]": ka}));
+    data_buckets::<T>(c, &d);
     c.bucket(if ka > 1e9 { "cond([X 1]):>1e9" } else if ka > 1e6 { "cond([X 1]):1e6..1e9" } else if ka > 1e3 { "cond([X 1]):1e3..1e6" } else { "cond([X 1]):<=1e3" });
     let cn: Vec<f64> = (0..=p).map(|j| norm2v(&A.col(j))).collect();
     let q = ols_one::<T>(c, &d, &A, &cn, "qr");
@@ -459,15 +467,15 @@ fn ridge_t<T: RealNumber>(c: &mut Case, model: Model) {
     };
     let p = d.p;
     let e = eps::<T>();
+    let mut kx = f64::NAN;
     if model == Model::RidgeOffset {
         // keep the large-offset inputs inside the literal reading of the quantifier as well: κ₂ of the
         // raw X itself (≈ cond·|mean|/std for p ≥ 2) must be <= 1e6 (f32: cond·eps <= 1e-3)
-        let kx = cond(&d.x);
+        kx = cond(&d.x);
         if !(kx <= 1e6 && kx * e <= MAX_COND_EPS) {
             c.skip("offset family: κ₂(X) of the raw design above 1e6 (f32: above 1e-3/eps)");
             return;
         }
-        c.bucket(if kx > 1e4 { "cond(raw X):1e4..1e6" } else if kx > 1e2 { "cond(raw X):1e2..1e4" } else { "cond(raw X):<=1e2" });
     }
     let alpha = round::<T>(c.rng.logu(1e-3, 1e2));
     let z = if normalize { standardised(&d) } else { d.x.clone() };
@@ -477,7 +485,11 @@ fn ridge_t<T: RealNumber>(c: &mut Case, model: Model) {
         c.skip("κ₂(ZᵀZ+αI)·eps above 1e-3 (normal equations not well-conditioned in this float width)");
         return;
     }
-    describe::<T>(c, &d, if normalize { "ridge/normalize" } else { "ridge/raw" }, Some(alpha), json!({"cond_ZtZ+aI": kg}));
+    describe::<T>(c, &d, if normalize { "ridge/normalize" } else { "ridge/raw" }, Some(alpha), json!({"cond_ZtZ+aI": kg, "cond_raw_X": kx}));
+    data_buckets::<T>(c, &d);
+    if model == Model::RidgeOffset {
+        c.bucket(if kx > 1e4 { "cond(raw X):1e4..1e6" } else if kx > 1e2 { "cond(raw X):1e2..1e4" } else { "cond(raw X):<=1e2" });
+    }
     let big_mean = normalize && d.mean_over_std > BIG_MEAN;
     let mean_allow = if normalize {
         let ms: Vec<f64> = (0..p).map(|j| d.mu[j] / d.sd[j]).collect();
@@ -550,12 +562,13 @@ both!(ridge_offset, ridge_offset_t, 0.25);
 fn main() {
     runner::main(Spec {
         property: "C07",
-        rule: "each case draws one data set from gen::design (1<=p<=8, p<n<=80 incl. n=p+1; centred/normalised part with log-graded singular values, cond<=1e6 (f32: <=30, raw ridge f32: <=10) re-measured after standardisation by an independent Jacobi SVD; column scales 1e-2..1e3 per column or common; non-zero column means 0.3/1/3 column scales), a target (linear+noise, exact linear, pure noise, noise+offset, constant, zero; rescaled 1e-3..1e3), alpha log-uniform in [1e-3,1e2], f64 (75 %) or f32, and fits BOTH solvers of the family's model on it (ols: QR+SVD; ridge_norm / ridge_raw: Cholesky+SVD); non-trivial = measured preconditions hold and at least one fit returned a model whose optimality conditions were evaluated; distinct = distinct hash of (model, width, alpha, X, y)",
+        rule: "each case draws one data set from gen::design (1<=p<=8, p<n<=80 incl. n=p+1; centred/normalised part with log-graded singular values, cond<=1e6 (f32: <=30, raw ridge f32: <=10) re-measured after standardisation by an independent Jacobi SVD; column scales 1e-2..1e3 per column or common; non-zero column means 0.3/1/3 column scales; family ridge_offset: means 30..1e4 (f32: 30..300) column scales with a common scale <= 1e3/that factor, generated cond <= 3 and kappa_2 of the raw X measured <= 1e6), a target (linear+noise, exact linear, pure noise, noise+offset, constant, zero; rescaled 1e-3..1e3), alpha log-uniform in [1e-3,1e2], f64 (75 %) or f32, and fits BOTH solvers of the family's model on it (ols: QR+SVD; ridge_norm / ridge_raw / ridge_offset: Cholesky+SVD, normalize on / off / on); non-trivial = measured preconditions hold and at least one fit returned a model whose optimality conditions were evaluated; distinct = distinct hash of (model, width, alpha, X, y)",
         assumptions: vec![
             "'condition number <= 1e6' is read as the 2-norm condition number of the centred, standardised design (measured); the condition number of the system actually solved ([X 1] for OLS, ZᵀZ+αI for ridge) is measured separately, enters only the solver-agreement tolerances, and cases with cond·eps > 1e-3 are skipped (affects f32 and a few f64 raw-ridge cases)",
             "f32: cond of the generated part <= 30 (raw ridge <= 10) and a common column scale for OLS / raw ridge, so that cond·eps << 1 for the system solved in single precision",
             "'standardised columns' = (x − mean)/std; the statement leaves population vs sample std open, the gradient may vanish under either (the library uses the population std)",
-            "oracle arithmetic is f64 with compensated sums on the already-rounded inputs; tolerances: OLS 1e3(n+p)eps‖A‖_F(‖y‖+‖A‖_F‖w‖); ridge 1e4·p·eps((‖ZᵀZ‖_F+α)‖w_z‖+‖Z‖_F‖y‖); intercept 100(n+p)eps·(mean|y|+Σ|w_j|mean|x_j|); predict 1e3(p+2)eps(Σ|x_ij w_j|+|b|)",
+            "oracle arithmetic is f64 with compensated sums on the already-rounded inputs; tolerances: OLS 1e3(n+p)eps‖A‖_F(‖y‖+‖A‖_F‖w‖); ridge 1e4·p·eps((‖ZᵀZ‖_F+α)‖w_z‖+‖Z‖_F‖y‖) + 100·n·eps·|Σy|·‖(mean_j/std_j)‖ (the second term, standardised columns only, is the backward error of a column mean summed in the working precision; the library does not centre y); intercept 100(n+p)eps·(mean|y|+Σ|w_j|mean|x_j|); predict 1e3(p+2)eps(Σ|x_ij w_j|+|b|); QR=SVD 100(n+p)eps·κ(2‖w‖+(κ+1)‖r‖/σ_max), κ=κ₂([X 1]); Cholesky=SVD 1e3·eps·κ₂(ZᵀZ+αI)‖w_z‖",
+            "predict is checked on the training matrix X (the statement says predict(X))",
         ],
         families: vec![
             Family::new("ols", 4000, 60000, ols),
